@@ -115,3 +115,61 @@ Fixpoint arun (s : astate) (h : list aop) : astate * list (out * list lev) :=
   | [] => (s, [])
   | o :: r => let '(s1, x) := astep s o in let '(s2, xs) := arun s1 r in (s2, x :: xs)
   end.
+
+(** ** A poll during whose waker registration ANOTHER stage acts
+
+    [MRBFuture::poll] is not atomic: between its first attempt and its second one it calls [register_waker], which runs code of the
+    polling task ([Waker::clone]) - and, on a concurrent buffer, any other stage may act at that point.  [poll_inj] is the poll with
+    one async step [d] of another stage placed exactly there: attempt; registration; [d]; second attempt.  The sequential
+    histories can never reach the "second attempt succeeds" branch of [poll]; these can (the harness performs [d] inside the
+    polling task's [Waker::clone]). *)
+
+(** the stage an injected step acts on: a synchronous method or a future created, polled once and dropped *)
+Definition inj_stage (d : aop) (m : mstate) : option stage :=
+  match d with
+  | ADirect o => direct_of o m
+  | APoll f => future_of f
+  | _ => None
+  end.
+Definition inj_ok (k : stage) (d : aop) (s : astate) : bool :=
+  match inj_stage d (base s) with Some k' => negb (stage_eqb k k') | None => false end.
+
+(** answers: the state, the poll's answer with ALL ledger events in program order, and what the injected step answered (if it ran) *)
+Definition poll_inj (k : stage) (o : op) (d : aop) (s : astate) : astate * (out * list lev) * option out :=
+  let '(m1, (x1, e1)) := step (base s) o in
+  if refused x1 then
+    let s1 := register k (set_base m1 s) in
+    let '(si, (xi, ei)) := astep s1 d in
+    let '(m2, (x2, e2)) := step (base si) o in
+    (set_base m2 si, ((if refused x2 then OPending else x2), e1 ++ ei ++ e2), Some xi)
+  else (set_base m1 s, (x1, e1), None).
+
+(** [APoll f] / [AHold f] / [ARepoll k] with the injection [d] *)
+Definition astep_inj (s : astate) (o : aop) (d : aop) : astate * (out * list lev) * option out :=
+  let bad := (s, (OBad, []), None) in
+  match o with
+  | APoll f =>
+      match future_of f with
+      | Some k => if free_iter k s && negb (det (it_of k (base s))) && inj_ok k d s then poll_inj k f d s else bad
+      | None => bad
+      end
+  | AHold f =>
+      match future_of f with
+      | Some k =>
+          if free_iter k s && negb (det (it_of k (base s))) && inj_ok k d s then
+            let '(s1, (x, e), xi) := poll_inj k f d s in
+            match x with OPending => (set_held k (Some f) s1, (x, e), xi) | _ => (s1, (x, e), xi) end
+          else bad
+      | None => bad
+      end
+  | ARepoll k =>
+      match tget k (held s) with
+      | Some f =>
+          if inj_ok k d s then
+            let '(s1, (x, e), xi) := poll_inj k f d s in
+            match x with OPending => (s1, (x, e), xi) | _ => (set_held k None s1, (x, e), xi) end
+          else bad
+      | None => bad
+      end
+  | _ => bad
+  end.
